@@ -571,6 +571,56 @@ func (g *gen) bs(b bool) string {
 	return "0"
 }
 
+// stepSplitPublish sends a publish frame by frame - method, header, body parts - with something else in between: the
+// cut points "during content" of a channel or connection that ends (C14), a second publish, an unrelated request
+func (g *gen) stepSplitPublish(sn server.VerifSnapshot) bool {
+	c, h, ok := g.anyChan()
+	if !ok {
+		return false
+	}
+	g.uid++
+	uid := g.uid
+	size := 2 + g.r.Intn(12)
+	first := 1 + g.r.Intn(size-1)
+	pers := g.b(1, 3)
+	g.do(fmt.Sprintf("PUBM %d %d - %s 0 0", c, h, g.existingQueue(sn)))
+	between := func() bool { // true: the channel or connection is gone, the rest of the content goes to a dead channel
+		switch g.r.Intn(8) {
+		case 0:
+			g.do(fmt.Sprintf("CHCLOSE %d %d", c, h))
+			delete(g.outstanding, [2]int{c, h})
+			return true
+		case 1:
+			g.do(fmt.Sprintf("QD %d %d %s 0 0 0 0 0", c, h, g.pick(qnames)))
+		case 2:
+			g.do(fmt.Sprintf("PUBM %d %d - %s 0 0", c, h, g.existingQueue(sn)))
+		case 3:
+			g.do(fmt.Sprintf("QP %d %d nosuchqueue 0", c, h)) // a channel error in the middle of the content
+			return true
+		}
+		return false
+	}
+	dead := between()
+	g.do(fmt.Sprintf("HDR %d %d %d %s %d", c, h, size, pers, uid))
+	if len(g.pendConn) > 0 || g.s.gone[c] {
+		return true
+	}
+	if !dead && g.r.Chance(1, 3) {
+		dead = between()
+	}
+	g.do(fmt.Sprintf("BODY %d %d %d 0 %d", c, h, uid, first))
+	if len(g.pendConn) > 0 || g.s.gone[c] {
+		return true
+	}
+	if g.r.Chance(4, 5) {
+		g.do(fmt.Sprintf("BODY %d %d %d %d %d", c, h, uid, first, size-first))
+	}
+	if dead && g.chans[c] != nil {
+		g.forgetChan(c, h)
+	}
+	return true
+}
+
 func (g *gen) stepRandom() {
 	sn := g.snap()
 	// answer broker-initiated closes first (most of the time)
@@ -609,6 +659,9 @@ func (g *gen) stepRandom() {
 	}
 	if focus == "counts" && g.r.Chance(1, 8) {
 		g.do("ADMIN")
+		return
+	}
+	if focus == "split" && g.r.Chance(1, 4) && g.stepSplitPublish(sn) {
 		return
 	}
 	if (focus == "restart" || focus == "routing") && g.nsteps > 8 && g.r.Chance(1, 14) {
